@@ -8,12 +8,17 @@ fit in 64 bits, decoding what was encoded — followed by anything — returns e
 untouched remainder.  Floats are arbitrary 64-bit patterns, so "all finite floating-point contents"
 (and more) is covered.  The model's bytes are compared byte for byte with the implementation's on every
 run.
+PROVED (JSON, document level): the documents `to_json` writes for Dual, Dual2, float-noded curves, float splines and FX markets — the
+forms `writeDual`, `writeDual2`, `writeCurveF64`, `writeSplineF64`, `writeFXRates` of Model/Load.lean, recognised in the implementation's own
+output on every run (`written` lines) — are accepted by the loader model with exactly the written shape,
+whenever the contents satisfy the type invariants.
 PARTIAL (DESIGN.md "C16 partial"): the JSON text layer (serde_json, ryu), the tagged entry point,
 Cal/UnionCal (hash-ordered bytes) and "answers every query identically" are
 validated by model-free round trips on the real code (they exposed a genuine defect, since repaired),
 not by theorems.
 -/
 import RateslibModel.Proofs.Serde
+import RateslibModel.Proofs.WriteLoad
 namespace Rateslib.Serde
 
 theorem C16_bincode_dual (d : SDual) (h : ValidDual d) (rest : Bytes) :
@@ -57,3 +62,60 @@ example : encDual ⟨0x4004000000000000, [[0x78], [0x79, 0x79]], ⟨2, [0x3ff000
        1, 2,0,0,0,0,0,0,0, 2,0,0,0,0,0,0,0, 0,0,0,0,0,0,0xf0,0x3f, 0,0,0,0,0,0,0xe0,0xbf] := by decide
 
 end Rateslib.Serde
+
+namespace Rateslib
+open Load
+
+/-- A saved first-order number loads: the document `to_json` writes for a number with distinct names and one
+coefficient per name is accepted, with that many names and coefficients. -/
+theorem C16_written_dual_loads (re : JNum) (names : List String) (d : List JNum) (hn : names.Nodup)
+    (hl : d.length = names.length) (hsz : d.length < 2 ^ 64) :
+    loadDual (writeDual re names d) = some ⟨names.length, names.length⟩ :=
+  load_written_dual re names d hn hl hsz
+
+/-- A saved second-order number loads (n names, n coefficients, an n × n second-order block). -/
+theorem C16_written_dual2_loads (re : JNum) (names : List String) (d h : List JNum) (hn : names.Nodup)
+    (hl : d.length = names.length) (hh : h.length = names.length * names.length) (hsz : d.length < 2 ^ 64) :
+    loadDual2 (writeDual2 re names d h) = some ⟨names.length, names.length, names.length, names.length⟩ :=
+  load_written_dual2 re names d h hn hl hh hsz
+
+/-- A saved float-noded curve loads with ALL its nodes: distinct timestamps written as integer literals (of any
+sign and digit count), any interpolation rule, convention and modifier, with or without an index base. -/
+theorem C16_written_curve_loads (table : String → Option Cal) (keys : List String) (ks : List Int)
+    (vals : List JNum) (interp id conv modi : String) (base : Option JNum) (cal : String)
+    (hk : keys.map parseI64Key = ks.map some) (hd : ks.Nodup) (hl : vals.length = keys.length)
+    (hi : interp ∈ interpolatorNames) (hc : conv ∈ conventionNames) (hm : modi ∈ modifierNames)
+    (hcal : loadNamedCal table (.obj [("name", .str cal)]) = some cal) :
+    loadCurve table (writeCurveF64 keys vals interp id conv modi base cal)
+      = some ⟨.f64 keys.length, interp, id, conv, modi, base.isSome, "NamedCal"⟩ :=
+  load_written_curve table keys ks vals interp id conv modi base cal hk hd hl hi hc hm hcal
+
+/-- A saved float spline loads, before or after `csolve`: order `k`, sorted knots, `n = len t − k`, and — if
+solved — `n` coefficients. -/
+theorem C16_written_spline_loads (k : Nat) (t : List JNum) (c : Option (List JNum)) (n : Nat)
+    (ht : 2 ≤ t.length) (hs : sortedNums t = true) (hk : k ≤ t.length) (hn : n = t.length - k)
+    (hc : ∀ xs, c = some xs → xs.length = n) (hsz : t.length < 2 ^ 64) :
+    loadSpline asF64 (writeSplineF64 k t c n) = some ⟨k, t.length, n, c.map List.length⟩ :=
+  load_written_spline k t c n ht hs hk hn hc hsz
+
+/-- A saved FX market reaches the loader's `try_new` with exactly the stored quotes and currencies (stored names
+are fixed points of `Ccy::try_new`, stored pairs are distinct, the settlement text is the date it stands for):
+loading the written document IS the validation of the stored state, so a market that was valid when saved loads. -/
+theorem C16_written_fxrates_loads (qs : List WQuote) (cs : List String) (hq : ∀ q ∈ qs, q.OK)
+    (hc : ∀ c ∈ cs, ccyTryNew c = some c) (hn : cs.Nodup) :
+    loadFXRates (writeFXRates qs cs) = validFXRates (qs.map WQuote.shape) cs :=
+  load_written_fxrates qs cs hq hc hn
+
+/-! Non-vacuity: integer literals of different sign and digit count are keys; a concrete written document. -/
+example : ["-86400", "999999999", "1000000000"].map parseI64Key = [-86400, 999999999, 1000000000].map some := by
+  decide +kernel
+example : (⟨"eur", "usd", ⟨false, 11, -1, false⟩, some ("2004-01-01T00:00:00", 1072915200)⟩ : WQuote).OK := by
+  refine ⟨by decide +kernel, by decide +kernel, by decide, ?_⟩
+  intro s d h
+  injection h with h; injection h with h1 h2
+  subst h1; subst h2
+  decide +kernel
+example : loadDual (writeDual ⟨false, 25, -1, false⟩ ["x", "yy"] [natNum 1, ⟨true, 5, -1, false⟩]) = some ⟨2, 2⟩ := by
+  decide +kernel
+
+end Rateslib
